@@ -442,7 +442,7 @@ def _inputs_from_states(states):
     return out
 
 
-N_CASES = 80      # Len(CaseList) in spec/MC_Formats.tla
+N_CASES = 83      # Len(CaseList) in spec/MC_Formats.tla
 
 # ----------------------------------------------------------------------------------------------- direction 2
 
@@ -574,6 +574,7 @@ def random_inputs(ctx: Ctx, n_write, n_rt, n_read, n_auto, n_seg):
             t = _rand_table(rng, _nrows(rng), gene=rng.random() < 0.7, xcols=_xcols(rng, 2), strand=w == "interval" and rng.random() < 0.3)
         if rng.random() < 0.3:
             t = _canonical_order(rng, t, r)
+            ctx.bump("rt_input_built_in_canonical_order")
         out.append({"op": "rt", "fmt": w, "rfmt": r, "srcs": [[S1, t]]})
     rd = [("bed3", "bed3"), ("bed3", "bed"), ("bed4", "bed4"), ("bed4", "bed3"), ("bed4", "bed"), ("bed6", "bed"), ("bed6", "bed4"),
           ("interval", "interval"), ("interval_hdr", "interval"), ("text", "text"), ("text_gene", "text"), ("tab", "tab"),
